@@ -34,6 +34,8 @@ type c14 struct {
 	b         *world.Browser
 	tw        *tokenWorld
 	jwtTokens []*grantedToken // tokens of the private_key_jwt client
+	// otherTokens: a live access token per other client (for requests whose form names that client)
+	otherTokens map[string]*grantedToken
 }
 
 func (c *c14) viol(rule, site, format string, a ...any) {
@@ -158,12 +160,34 @@ func (c *c14) useAssertion(ch *kernel.Chooser) string {
 			return "assertion@revoke: no token of the jwt client"
 		}
 		g := c.jwtTokens[ch.Int(len(c.jwtTokens))]
+		owner := "jwt"
+		if bc := p.creds.BodyClientID; bc != "" && ch.Bool(1, 2) {
+			// the token of the client that the form names: only its owner may revoke it, so an effective revocation
+			// tells who the endpoint took the caller for
+			if c.otherTokens == nil {
+				c.otherTokens = map[string]*grantedToken{}
+			}
+			og := c.otherTokens[bc]
+			if id, _, _, ok := w.DecodeAccess(accessOf(og)); og == nil || !ok || !w.Store.TokenLive(id) {
+				og = nil
+				if usableClient(w, bc) {
+					if s, err := codeFlow(w, c.b, flowOpts{client: bc, scopes: []string{oidc.ScopeOpenID}}); err == nil {
+						og = &grantedToken{access: s.tokens.AccessToken, refresh: s.tokens.RefreshToken, client: bc, subject: "u1"}
+						c.otherTokens[bc] = og
+					}
+				}
+			}
+			if og != nil {
+				g, owner = og, bc
+				c.o.Probe("assertion-next-to-the-form's-client-at-that-client's-token")
+			}
+		}
 		id, _, _, _ := w.DecodeAccess(g.access)
 		before := w.Store.TokenLive(id)
 		r = w.PostForm("/revoke", url.Values{"token": {g.access}, "token_type_hint": {"access_token"}}, p.creds)
-		desc = "client-assertion@revoke"
+		desc = "client-assertion@revoke(token of " + owner + ")"
 		if before && !w.Store.TokenLive(id) {
-			accepted, identity = true, "jwt"
+			accepted, identity = true, owner
 		}
 	case 3: // client authentication at device authorization
 		r = w.PostForm("/device_authorization", url.Values{"scope": {"openid"}}, p.creds)
@@ -407,6 +431,13 @@ func (c *c14) concurrentAssertions(ch *kernel.Chooser) string {
 		}
 	}
 	return desc
+}
+
+func accessOf(g *grantedToken) string {
+	if g == nil {
+		return ""
+	}
+	return g.access
 }
 
 func surfaceName(i int) string {
